@@ -7,7 +7,7 @@ import pipe
 
 ID = "C04"
 MODULE = "C04"
-IMPORTS = "Bytes RustInt Range CacheControl Cache CacheProofs Cache04Proofs Fixture CacheX CacheXProofs CacheControlProofs CacheXWitness"
+IMPORTS = "Bytes RustInt Range CacheControl Cache CacheProofs Cache04Proofs Fixture CacheX CacheXProofs CacheControlProofs CacheXWitness Hosts CacheClear CacheClearProofs"
 PROFILES = ("dev",)
 PER_SHARD = 3          # scenarios contain real sleeps: spread them over all cores
 KERNEL_SAMPLE = 30
@@ -20,6 +20,9 @@ THEOREMS = [(n, _PINS[n]) for n in (
     "lifetime_equation", "lifetime_max_age_among", "lifetime_kvarn_unit",
     "cleared_is_miss", "cleared_page_is_recomputed", "cleared_all_is_miss", "not_found_is_recomputed", "unsafe_or_non_get_is_recomputed",
     "computed_once_history", "not_modified_rule", "not_modified_arithmetic",
+    "fixture_collection_is_built", "clear_page_designation_exact", "clear_all_filter_exact", "cleared_page_by_designation_is_recomputed",
+    "clear_reports_what_it_cleared", "cleared_host_by_filter_is_recomputed", "clear_by_other_name_is_noop", "clear_all_by_other_filter_is_noop",
+    "designated_history_erases", "computed_once_designated_history", "designated_run_meets_spec", "designated_own_name_is_plain",
     "vary_push_admission_refuted", "variant_lifetime_refuted", "clear_unprimed_refuted", "ims_unstored_variant_refuted")]
 RULE = ("kvarn::handle_cache in process (component pipex.run, harness/src/c04x.rs) with handlers whose body carries their invocation number, "
         "against the Coq cache model Model/CacheX.v (correspondence) and against expectations derived from the property text (oracle: "
@@ -32,7 +35,12 @@ RULE = ("kvarn::handle_cache in process (component pipex.run, harness/src/c04x.r
         "lifetime must not restart it; every request timed by the harness: a "
         "scenario whose request started or ended more than `slack` late is run again (3 attempts) and then counted as not executed (never "
         "a violation); clears of the page / host / the page under its redirected URI / a page with BOTH its keys occupied (path?query and path) on "
-        "each spelling; (D) If-Modified-Since with the scenario start aligned "
+        "each spelling; (C') the clears as their caller names the host (component pipex.rund, harness c04x.rs ops (L (N 1) target designation) / (L (N 2) (L [filter])), "
+        "model Model/CacheClear.v over C15's collection model, specification component pipex.rund_spec): hosts named localhost / a.test / default, "
+        "inserted or made the default host, clear_page by own name, \"\", \"default\", an unknown name, the name in upper case, the name with a trailing dot; "
+        "clear_response_caches with no filter / own name / another name / \"\" / \"default\"; a host without response cache; random histories of "
+        "requests and designated clears against a reference reading in Python (which requests are computed, what every clear answers); "
+        "(D) If-Modified-Since with the scenario start aligned "
         "to xx.3 s wall clock; (E) kvarn_utils::parse::CacheControl called directly (cc.parse) on bounded-exhaustive and random header "
         "strings, compared with the byte-level model and an independent reference parser in Python. "
         "distinct_nontrivial = distinct scenarios whose model run contains a hit or a 304")
@@ -44,12 +52,17 @@ ASSUMPTIONS = [
     "If-Modified-Since dates are generated relative to the aligned scenario start; the `time` crate's HTTP-date parser is abstracted to its result",
     "ServerCachePreference::MaxAge(d) ignores d (observation, outside the property's wording)",
     "sequential histories; the second lookup inside handle_vary_missing is collapsed (interleavings are C05's subject)",
+    "the collection of the pipeline fixture holds ONE host (inserted or default): which host a clear reaches among several (alternative names, "
+    "replaced hosts) is C15's subject (hosts.pipe; clear_page_target_eq / clear_all_targets_eq) — here the designation decides between this host and none",
+    "clear_page(\"\" / \"default\", ..) answers found = false for a default host WITHOUT response cache while clear_page(<its name>, ..) answers "
+    "found = true (observation, modelled as is; nothing is stored on such a host)",
     "kvarn-cache-control: N<unit> with N*unit >= 2^32 panics in a build with overflow checks (C02 known class kvarn-cache-control-overflow); "
     "the pipeline generators stay below, the direct component cc.parse compares the panic outcome too",
 ]
 TRUSTED = ["modelled (Model/CacheX.v): src/lib.rs handle_cache + handle_cache_helpers {get_response's key, get_cache, maybe_cache, handle_vary_missing}, "
            "src/comprash.rs UriKey/PathQuery/MokaCache::{get_cache_item,insert,insert_cache_item}/server_cache_lifetime/ServerCachePreference::cache, "
-           "src/host.rs clear_page/clear_response_caches/status filter, extensions.rs uri_redirect_target; utils/src/parse.rs CacheControl::"
+           "src/host.rs clear_page (both branches: \"\"/\"default\" -> get_default, a name -> get_host) / clear_response_caches (with and without "
+           "filter) / status filter, over the collection CollectionBuilder::{insert,default} builds (Model/CacheClear.v on Model/Hosts.v), extensions.rs uri_redirect_target; utils/src/parse.rs CacheControl::"
            "{from_cache_control, from_kvarn_cache_control, from_headers, store, as_freshness} byte for byte (Model/CacheControl.v); handlers, vary rules, "
            "override Prime and status filters are the fixture menu (harness/src/c00pipe.rs + c04x.rs = Model/Fixture.v + CacheX.v)"]
 LEVEL_TEXT = ("Coq theorems over the full cache model (streams, body size as a number, the host's status filter, override URIs, vary variants) for ALL "
@@ -59,7 +72,15 @@ LEVEL_TEXT = ("Coq theorems over the full cache model (streams, body size as a n
               "request — with or without If-Modified-Since — of every history [uncacheable_always_recomputed]; a variant found by a lookup was stored at most its OWN lifetime ago, also among "
               "longer-lived variants of the same page [never_served_past_own_lifetime]; max-age=N alone or among other directives and kvarn-cache-control "
               "N<unit> for every N, unit give N(*unit) seconds [lifetime_*]; a clear of the page (as given or as the default redirect rewrites it) or of "
-              "the host makes the next request recompute; misses / non-GET / unsafe requests always recompute; after a response was stored, every history "
+              "the host makes the next request recompute — with the host named as the caller of Collection::clear_page / clear_response_caches names it: the "
+              "designation reaches the host exactly when it is \"\"/\"default\" and the host is the default host or it is the host's name "
+              "[clear_page_designation_exact], the filter exactly when absent or the host's name [clear_all_filter_exact]; a clear that reaches the host "
+              "answers (found, cleared iff a key was occupied) and the next request is recomputed in every state [cleared_page_by_designation_is_recomputed, "
+              "clear_reports_what_it_cleared, cleared_host_by_filter_is_recomputed]; a clear that names another host changes nothing "
+              "[clear_by_other_name_is_noop, clear_all_by_other_filter_is_noop] and such clears — of the very page too — leave it computed once "
+              "[computed_once_designated_history]; every designated history leaves the state of its erased plain history, so all theorems over all plain "
+              "histories hold for designated ones [designated_history_erases]; the model component compared with the code is its specification run on "
+              "every input and extends pipex.run [designated_run_meets_spec, designated_own_name_is_plain]; misses / non-GET / unsafe requests always recompute; after a response was stored, every history "
               "of other requests, waits and clears of other keys leaves the same request answered without recomputation until the deadline "
               "[computed_once_history]; 304 iff a usable entry exists, holds the variant the request selects and date >= stored second (corner case spelled out). Four "
               "defects of the code before its repair are proved as witnesses on the faithful old model (vary_push_admission_refuted, "
@@ -265,6 +286,121 @@ def clears(rng):
     return out
 
 
+# ---- (C') the clears as their caller names the host (component pipex.rund, Model/CacheClear.v) ---------------------
+def dcase(c, ops, kind, expect):
+    """model = pipex.rund; the specification component pipex.rund_spec (the two lookups read from the doc comments of
+    src/host.rs) is evaluated on the same input: a difference is reported with this input as the replay"""
+    return Case("pipex.rund", pipe.scenario(c, ops), "pipex.rund_spec", {"kind": kind, "expect": expect})
+
+
+def designates(own, dflt, name):
+    """clear_page's doc: "If host is "" or "default", the default host is used"; otherwise the host of that name"""
+    return dflt if name in (b"", b"default") else name == own
+
+
+def filter_reaches(own, flt):
+    return flt is None or flt == own
+
+
+def ref_history(own, dflt, ops):
+    """reference reading of a history over the two counting handlers /c (Full: one item per path) and /d (QueryMatters: one
+    item per path?query): which requests must be computed, what each clear must answer"""
+    stored = set()
+    exp = []
+    for o in ops:
+        if o[0] == "req":
+            _, path, query = o
+            # Full: the item of the path; QueryMatters: the item of path + query (no query = the empty query, NOT the path's item)
+            key = ("P", path) if path == b"/c" else ("PQ", path, query or b"")
+            if key in stored:
+                exp.append(("hit", 200, 0))
+            else:
+                exp.append(("compute", 200, 0))
+                stored.add(key)
+        elif o[0] == "page":
+            _, name, path, query = o
+            if designates(own, dflt, name):
+                keys = {("PQ", path, query or b""), ("P", path)}      # the uri as given and without its query
+                exp.append(("clear", True, bool(stored & keys)))
+                stored -= keys
+            else:
+                exp.append(("clear", False, False))
+        else:
+            if filter_reaches(own, o[1]):
+                stored.clear()
+            exp.append(None)
+    return exp
+
+
+def d_ops(ops):
+    out = []
+    for o in ops:
+        if o[0] == "req":
+            out.append(pipe.req(o[1] + (b"?" + o[2] if o[2] is not None else b"")))
+        elif o[0] == "page":
+            out.append(pipe.clear_page(o[2] + (b"?" + o[3] if o[3] is not None else b""), host=o[1]))
+        else:
+            out.append(pipe.clear_all(o[1], designated=True))
+    return out
+
+
+def designated_clears(rng, tier):
+    out = []
+    h = pipe.H(b"/c", kind=2, body=b"n=", spref=2, cpref=0)
+    h2 = pipe.H(b"/d", kind=2, body=b"m=", spref=1, cpref=0)
+    for own in (b"localhost", b"a.test", b"default"):
+        for dflt in (False, True):
+            kw = {} if own == b"localhost" else {"host": own}
+            if dflt:
+                kw["default_host"] = True
+            c = base_cfg([h, h2], **kw)
+            names = [own, b"", b"default", b"other.test", own.upper(), own + b"."]
+            for name in names:
+                ops = [("req", b"/c", None), ("req", b"/c", None), ("page", name, b"/c", None), ("req", b"/c", None),
+                       ("req", b"/d", b"x=1"), ("page", name, b"/d", b"x=1"), ("req", b"/d", b"x=1"), ("page", name, b"/c", b"q"), ("req", b"/c", None)]
+                out.append(dcase(c, d_ops(ops), "clear/by-name" + ("/default-host" if dflt else ""), ref_history(own, dflt, ops)))
+            for flt in (None, own, b"other.test", b"", b"default", own.upper()):
+                ops = [("req", b"/c", None), ("req", b"/c", None), ("req", b"/d", b"x=1"), ("all", flt), ("req", b"/c", None), ("req", b"/d", b"x=1")]
+                out.append(dcase(c, d_ops(ops), "clear/filter" + ("/default-host" if dflt else ""), ref_history(own, dflt, ops)))
+            # the host has no response cache: nothing is ever stored; the default branch then reports "not found"
+            ops = [("req", b"/c", None), ("page", own, b"/c", None), ("page", b"default", b"/c", None), ("all", own), ("req", b"/c", None)]
+            out.append(dcase(pipe.cfg(cache=False, handlers=[h, h2], report=[xb(r) for r in REPORT], **kw), d_ops(ops), "clear/no-cache",
+                             [("compute", 200, 0), None, None, None, ("compute", 200, 0)]))
+    # the default branch clears the page under the URI the default redirect rewrites it to as well ("/" is stored under "/index.html")
+    hs = [pipe.H(b"/a/index.html", kind=2, body=b"i=", spref=2, cpref=0), pipe.H(b"/index.html", kind=2, body=b"r=", spref=2, cpref=0)]
+    C, H_ = ("compute", 200, 0), ("hit", 200, 0)
+    for given, stored in ((b"/a/", b"/a/index.html"), (b"/", b"/index.html")):
+        for dflt in (False, True):
+            q = rng.choice([b"", b"?x=1"])
+            ops = [pipe.req(given + q), pipe.req(given + q), pipe.clear_page(given + q, host=b"default"), pipe.req(given + q),
+                   pipe.clear_page(stored + q, host=b""), pipe.req(given + q), pipe.clear_all(b"localhost", designated=True), pipe.req(given + q)]
+            kw = {"default_host": True} if dflt else {}
+            exp = [C, H_, ("clear", True, True), C, ("clear", True, True), C, None, C] if dflt else \
+                  [C, H_, ("clear", False, False), H_, ("clear", False, False), H_, None, C]
+            out.append(dcase(base_cfg(hs, default_ext=True, **kw), ops, "clear/by-name/redirected", exp))
+    # random histories of requests and designated clears
+    n = 40 if tier == "quick" else 1500
+    for _ in range(n):
+        own = rng.choice([b"localhost", b"localhost", b"a.test", b"default", b"b.test"])
+        dflt = rng.random() < 0.5
+        kw = {} if own == b"localhost" else {"host": own}
+        if dflt:
+            kw["default_host"] = True
+        names = [own, own, b"", b"default", b"other.test", b"localhost", b"a.test"]
+        ops = []
+        for _ in range(rng.randrange(4, 14)):
+            r = rng.random()
+            path, query = rng.choice([(b"/c", None), (b"/c", None), (b"/c", b"x=1"), (b"/d", None), (b"/d", b"x=1"), (b"/d", b"x=2")])
+            if r < 0.6:
+                ops.append(("req", path, query))
+            elif r < 0.85:
+                ops.append(("page", rng.choice(names), path, query))
+            else:
+                ops.append(("all", rng.choice([None] + names)))
+        out.append(dcase(base_cfg([h, h2], **kw), d_ops(ops), "clear/designated-history", ref_history(own, dflt, ops)))
+    return out
+
+
 # ---- (D) If-Modified-Since ---------------------------------------------------------------------------------
 def ims(rng):
     out = []
@@ -437,7 +573,7 @@ def generate(rng, tier):
         cases.append(admission(rng, 2, b"GET", 200, 10, cc))
     for name in SECOND:
         cases.append(vary_admission(rng, name))
-    cases += vary_lifetime(rng) + lifetimes(rng) + clears(rng) + ims(rng)
+    cases += vary_lifetime(rng) + lifetimes(rng) + clears(rng) + designated_clears(rng, tier) + ims(rng)
     # every status of the list once with a cacheable preference, streams once per kind, the size boundary
     for st in sorted(set(STATUSES)):
         cases.append(admission(rng, rng.choice([1, 2, 3]), b"GET", st, 10, "none"))
@@ -501,6 +637,13 @@ def extra_oracle(c, impl):
     if len(out) != len(exp):
         return "wrong number of results"
     for i, (e, o) in enumerate(zip(exp, out)):
+        if e is not None and e[0] == "clear":
+            if o[0] != "L" or len(o[1]) != 2:
+                return "op %d: not the answer of a clear" % i
+            got = (bool(o[1][0][1]), bool(o[1][1][1]))
+            if got != (e[1], e[2]):
+                return "op %d: clear_page answered (found, cleared) = %s, the designation and the history demand %s" % (i, got, (e[1], e[2]))
+            continue
         if e is None or o[0] != "L" or len(o[1]) != 7:
             continue
         want, status, stream = e
@@ -518,7 +661,7 @@ def extra_oracle(c, impl):
 
 
 def signature(c, m):
-    if c.comp != "pipex.run":
+    if c.comp not in ("pipex.run", "pipex.rund"):
         return None
     try:
         for x in xparse(m)[1]:
@@ -531,7 +674,7 @@ def signature(c, m):
 
 def describe(c):
     import kv
-    if c.comp != "pipex.run":
+    if c.comp not in ("pipex.run", "pipex.rund"):
         return {"component": c.comp, "kind": c.meta.get("kind"), "input": kv.pretty(c.x, 200)}
     ops = c.x[1][1][1]
     return {"component": c.comp, "kind": c.meta.get("kind"), "config": kv.pretty(c.x[1][0], 400),
